@@ -309,6 +309,29 @@ def rand_text(rng, t, maxlen=12, undefined=0.05):
     return out
 
 
+def rand_text_rules(rng, t, maxlen=12):
+    """text built mostly from the character strings of the table's own rules, so that multi-character
+    rules, their prefixes and overlaps are actually exercised"""
+    strs = [r.chars for r in t.rules if r.chars and r.test is None and r.raw is None and len(r.chars) > 1]
+    if not strs:
+        return rand_text(rng, t, maxlen)
+    out = []
+    while len(out) < maxlen and rng.random() < 0.85:
+        r = rng.random()
+        if r < 0.6:
+            s = list(rng.choice(strs))
+            if rng.random() < 0.2 and len(s) > 1:
+                s = s[:-1]
+            if rng.random() < 0.15 and s[0] in t.upper:
+                s[0] = t.upper[s[0]]
+            out += s
+        elif r < 0.8:
+            out.append(0x20)
+        else:
+            out += rand_text(rng, t, 2)
+    return out[:maxlen]
+
+
 def rand_cells(rng, t, maxlen=12, undefined=0.05):
     cs = t.cells()
     n = rng.randint(0, maxlen)
@@ -322,3 +345,56 @@ def rand_cells(rng, t, maxlen=12, undefined=0.05):
         else:
             out.append(0x8000 | rng.choice(cs))
     return out
+
+
+# ---------------------------------------------------------------- structured entries for the Lean compile model
+
+OPNAME = {"always": "CTO_Always", "word": "CTO_WholeWord", "partword": "CTO_PartWord", "begword": "CTO_BegWord",
+          "midword": "CTO_MidWord", "endword": "CTO_EndWord", "begmidword": "CTO_BegMidWord",
+          "midendword": "CTO_MidEndWord", "sufword": "CTO_SuffixableWord", "prfword": "CTO_PrefixableWord",
+          "lowword": "CTO_LowWord", "space": "CTO_Space", "digit": "CTO_Digit", "litdigit": "CTO_LitDigit",
+          "punctuation": "CTO_Punctuation", "math": "CTO_Math", "sign": "CTO_Sign", "letter": "CTO_Letter",
+          "uppercase": "CTO_UpperCase", "lowercase": "CTO_LowerCase", "numsign": "CTO_NumberSign",
+          "undefined": "CTO_Undefined"}
+
+_opnum = None
+
+
+def opnum(name):
+    """opcode number from the generated Lean constants (lean/LouModel/Gen/Consts.lean)"""
+    global _opnum
+    if _opnum is None:
+        import os, re
+        p = os.path.join(os.path.dirname(os.path.dirname(os.path.dirname(os.path.abspath(__file__)))),
+                         "lean", "LouModel", "Gen", "Consts.lean")
+        _opnum = {m.group(1): int(m.group(2)) for m in re.finditer(r"^def (CTO_\w+) : Nat := (\d+)", open(p).read(), re.M)}
+    return _opnum[OPNAME[name]]
+
+
+def parse_dots_operand(s):
+    """'12-3' -> [0x8003, 0x8004]"""
+    out = []
+    for cell in s.split("-"):
+        v = 0x8000
+        for ch in cell:
+            if ch == "0":
+                continue
+            v |= 1 << ("123456789abcdef".index(ch))
+        out.append(v)
+    return out
+
+
+def entry_str(rule):
+    """`opcode:chars:dots:flags` for one Rule of the F0' fragment; None when the rule is outside it"""
+    def w(l):
+        return "".join("%04x" % x for x in l) or "-"
+    fl = ("b" if rule.prefix == "noback" else "") + ("f" if rule.prefix == "nofor" else "") or "-"
+    if rule.raw is not None:
+        p = rule.raw.split()
+        if p[0] in ("numsign", "undefined") and len(p) == 2:
+            return "%d:-:%s:%s" % (opnum(p[0]), w(parse_dots_operand(p[1])), fl)
+        return None
+    if rule.test is not None or rule.opcode not in OPNAME:
+        return None
+    dots = [] if rule.cells is None else [0x8000 | c for c in rule.cells]
+    return "%d:%s:%s:%s" % (opnum(rule.opcode), w(rule.chars), w(dots), fl)
